@@ -572,6 +572,8 @@ impl WebSocketClient {
 
         let (sender, receiver) = oneshot::channel();
         let mut pending_guard = PendingRequestGuard::register(&self.inner, id, sender)?;
+        #[cfg(feature = "verif-hooks")]
+        crate::verif_hooks::hit("wsclient.after_register");
 
         self.write_request(&msg).await?;
 
@@ -593,6 +595,8 @@ impl WebSocketClient {
     }
 
     async fn write_request(&self, msg: &Message) -> Result<(), RepeError> {
+        #[cfg(feature = "verif-hooks")]
+        crate::verif_hooks::hit("wsclient.before_write");
         let bytes = msg.to_vec();
         // Refuse before sending. The local write would succeed either way; it is
         // the peer's reader that rejects an oversized frame and closes the
@@ -739,6 +743,8 @@ fn spawn_response_loop(mut reader: WsReader, inner: std::sync::Weak<WebSocketCli
                 }
             };
 
+            #[cfg(feature = "verif-hooks")]
+            crate::verif_hooks::hit("wsclient.reader.got_frame");
             let dispatch = {
                 let Some(inner_ref) = inner.upgrade() else {
                     break;
@@ -773,6 +779,8 @@ fn spawn_response_loop(mut reader: WsReader, inner: std::sync::Weak<WebSocketCli
 
             match dispatch {
                 PendingDispatch::Matched { sender, response } => {
+                    #[cfg(feature = "verif-hooks")]
+                    crate::verif_hooks::hit("wsclient.reader.before_deliver");
                     let _ = sender.send(Ok(response));
                 }
                 PendingDispatch::Notify { sender, response } => {
@@ -841,6 +849,8 @@ async fn fail_all_pending(inner: &std::sync::Weak<WebSocketClientInner>, err: Re
     take_notify_sender(&inner_ref);
 
     let _ = close_writer(&inner_ref).await;
+    #[cfg(feature = "verif-hooks")]
+    crate::verif_hooks::hit("wsclient.fail.after_shutdown");
 
     let waiters = {
         let mut pending = lock_pending_map(&inner_ref.pending);
